@@ -302,14 +302,16 @@ def law_case(ctx: Ctx, case) -> bool:
     t0 = tol(dtype)
     n0 = len(ctx.failures)
 
-    def mags(*Ls):
-        m = 1.0
+    def tsum(*Ls):
+        """sum of the magnitudes of the terms of the product's translation: |t_1| + s_1|t_2| + s_1 s_2|t_3| + …"""
+        S, T = 1.0, 0.0
         for L in Ls:
             v = L.tensor().double()
-            t = float(v[..., U.TSL[name]].abs().max()) if U.TSL[name] is not None else 0.0
-            s = float(v[..., U.SIDX[name]].abs().max()) if U.SIDX[name] is not None else 1.0
-            m = m * max(1.0, s) + t * max(1.0, s)
-        return m
+            t = float(v[..., U.TSL[name]].norm(dim=-1).max()) if U.TSL[name] is not None else 0.0
+            sc = float(v[..., U.SIDX[name]].abs().max()) if U.SIDX[name] is not None else 1.0
+            T += S * t
+            S *= sc
+        return T
 
     def smax(*Ls):
         r = 1.0
@@ -324,8 +326,16 @@ def law_case(ctx: Ctx, case) -> bool:
             ctx.fail(case, f"alias: X@X differs from X@X.clone() for {name} ({dtype})")
         a = (X @ Y) @ Z
         b = X @ (Y @ Z)
-        if float(tdist(name, a, b).max()) > 4 * t0 * mags(X, Y, Z):
-            ctx.fail(case, f"assoc: (X@Y)@Z != X@(Y@Z) for {name} ({dtype}): {float(tdist(name, a, b).max()):.3e}")
+        # per block: quaternion and scale are compared relatively (no magnitude factor); the translation of a product is
+        # t_X + s_X R_X t_Y + s_X s_Y R_XY t_Z, so its rounding error scales with the sum of the magnitudes of these terms
+        av, bv = a.tensor().double(), b.tensor().double()
+        dq = float(torch.minimum((av[..., U.QSL[name]] - bv[..., U.QSL[name]]).norm(dim=-1),
+                                 (av[..., U.QSL[name]] + bv[..., U.QSL[name]]).norm(dim=-1)).max())
+        ds = float(((av[..., U.SIDX[name]] - bv[..., U.SIDX[name]]).abs() / bv[..., U.SIDX[name]].abs()).max()) if U.SIDX[name] is not None else 0.0
+        dtr = float((av[..., U.TSL[name]] - bv[..., U.TSL[name]]).abs().max()) if U.TSL[name] is not None else 0.0
+        if dq > 4 * t0 or ds > 4 * t0 or dtr > 4 * t0 * tsum(X, Y, Z):
+            ctx.fail(case, f"assoc: (X@Y)@Z != X@(Y@Z) for {name} ({dtype}): quaternion {dq:.2e}, scale {ds:.2e}, "
+                           f"translation {dtr:.2e} (translation terms sum to {tsum(X, Y, Z):.2e})")
         I = P.identity_like(X)
         xv = X.tensor().double()
         tmag = float(xv[..., U.TSL[name]].abs().max()) if U.TSL[name] is not None else 0.0
